@@ -168,6 +168,9 @@ def scenarios(prop, quick, seed):
         elif fam == 7:         # BulkGet callers whose missing keys are all in flight elsewhere (they must wait for the joined loads)
             sc.update(getters=1 + j % 2, bulk=2, bulkkeys=1 + (j // 8) % 2, refreshers=0, refresh=0, preload=0, writers=[],
                       outcomes=[["val"], ["val", "nf"], ["val", "err"]][(j // 16) % 3])
+            if (j // 8) % 2 == 1:
+                # the bulk loader fetches "the whole page": a key that is in flight elsewhere comes back as an extra of the caller's own load
+                sc.update(extra=1, bulk=1, bulkkeys=2, outcomes=["val"], policy=sc["policy"].split("+")[0] + "+inflight")
         if fam == 0:
             # the write happens inside the loader itself (user code): a whole call between the start of the load and its installation
             sc.update(getters=1 + (j // 16) % 2, bulk=0, refreshers=(j // 32) % 2, refresh=(j // 32) % 2, preload=(j // 32) % 2, writers=[], outcomes=[["val"], ["nf"], ["val"], ["err"]][(j // 8) % 4],
